@@ -962,7 +962,8 @@ def designed_worlds(rng, focus):
                           most of them with a `timeout:`. Only the jobs already in the pool's channel (<= num_workers) can start after
                           the failure, and they do so at once: see the statistic `post_failure_starts` and its oracle
       first-lines         one target (and one output check) per (character width class x length around 64..73 / 128 / 256 / 4096)
-      many-failures-N     keep-going, N independent failing leaves for N around multiples of 256, one healthy target"""
+      many-failures-N     keep-going, N independent failing leaves for N around multiples of 256, one healthy target
+      interrupt-queued    SIGINT / SIGTERM while more targets are ready than there are workers, then another build"""
     out = []
     cfg0 = {"num_workers": 4, "fail_fast": False, "load_outputs": "all", "enable_cache": True, "disable_default_shell_flags": False, "hash_algorithm": "xxh3"}
     base = {"interrupt": None, "healed_at_start": False, "slow_reader": 0}
@@ -1007,6 +1008,13 @@ def designed_worlds(rng, focus):
         for shape in ("", "\n\n", " \t  # x", ": 'ü'"):
             T.append(_blank_target(len(T), banner=("shape", shape), lean=True))
         out.append(dict(base, designed="first-lines", cfg=dict(cfg0, num_workers=8), targets=T, history=[{"op": "build"}, {"op": "nothing"}, {"op": "build"}]))
+        # an interrupt that arrives while more targets are ready than there are workers (jobs sit in the pool's channel, callbacks
+        # are blocked in Run), followed by another build
+        for workers, sig in ((1, "SIGINT"), (2, "SIGTERM"), (3, rng.choice(["SIGINT", "SIGTERM"]))):
+            T = [_blank_target(i, sleep=0.4, timeout="20s" if rng.random() < 0.3 else None) for i in range(10)]
+            out.append(dict(base, designed="interrupt-queued", cfg=dict(cfg0, num_workers=workers), targets=T,
+                            history=[{"op": "build"}, {"op": "nothing"}, {"op": "build"}],
+                            interrupt={"signal": sig, "delay": rng.choice([0.5, 0.7]), "build": 0}))
     return out
 
 
